@@ -1090,6 +1090,7 @@ func TestC13(t *testing.T) {
 		chunk, progress := filepath.Join(dir, fmt.Sprintf("chunk-%d.jsonl", lo)), filepath.Join(dir, "progress")
 		os.WriteFile(progress, []byte(strconv.Itoa(lo)), 0o644)
 		cmd := exec.Command(os.Args[0], "-test.run", "^TestC13$", "-test.timeout", "50m")
+		coverChild(cmd)
 		cmd.Env = append(os.Environ(), fmt.Sprintf("VERIF_C13_CHILD=%d:%d", lo, len(items)), "VERIF_C13_PROGRESS="+progress, "VERIF_OUT="+chunk, "VERIF_DIST=")
 		var outb bytes.Buffer
 		cmd.Stdout, cmd.Stderr = &outb, &outb
